@@ -23,7 +23,7 @@ func errRules() []*Rule {
 		{ID: "DONE-1", Props: []string{"C17"}, Min: 14,
 			Doc: "the done flag of every inner (bool, error) iteration is returned as-is or, when true, leads to an immediate return of true with no call in between",
 			Run: runDone1},
-		{ID: "DONE-2", Props: []string{"C17"}, Min: 7,
+		{ID: "DONE-2", Props: []string{"C17"}, Min: 5,
 			Doc: "adapters return the user callback's answer as their done result",
 			Run: runDone2},
 		{ID: "DONE-3", Props: []string{"C17"}, Min: 5,
@@ -597,21 +597,23 @@ func runDone1(c *Ctx) {
 					if !ok {
 						return true
 					}
-					if iff.Cond == d {
+					// the tested value may reach the test through a phi or a local (`var done bool; if first {done, err = …}`)
+					cond := next.Resolve(iff.Cond)
+					if cond == d {
 						next.Cells[&testedKey] = nil
 						if k == 0 {
 							next.Cells[&trueKey] = nil
 						}
 						return true
 					}
-					if u, ok := iff.Cond.(*ssa.UnOp); ok && u.Op == token.NOT && u.X == d {
+					if u, ok := cond.(*ssa.UnOp); ok && u.Op == token.NOT && next.Resolve(u.X) == d {
 						next.Cells[&testedKey] = nil
 						if k == 1 {
 							next.Cells[&trueKey] = nil
 						}
 						return true
 					}
-					if t := nilTestOf(iff); t != nil && ev != nil && t.V == ev && from.Succs[k] == t.NonNil {
+					if t := nilTestOf(iff); t != nil && ev != nil && next.Resolve(t.V) == ev && from.Succs[k] == t.NonNil {
 						next.Cells[&errKey] = nil
 					}
 					return true
